@@ -1925,10 +1925,25 @@ class _BulkORMUpdate(_BulkUDCompileState, UpdateDMLState):
 
             to_evaluate = state.unmodified.intersection(evaluated_keys)
 
-            for key in to_evaluate:
-                if key in dict_:
-                    # only run eval for attributes that are present.
-                    dict_[key] = value_evaluators[key](obj)
+            # evaluate every SET expression against the pre-UPDATE values
+            # first, as the database does ("SET a=b, b=a" swaps), then
+            # assign; an expression that involves an expired attribute
+            # can't be evaluated, expire the target attribute instead
+            new_values = {
+                key: value_evaluators[key](obj)
+                for key in to_evaluate
+                # only run eval for attributes that are present.
+                if key in dict_
+            }
+            unevaluated = {
+                key
+                for key, value in new_values.items()
+                if value is evaluator._EXPIRED_OBJECT
+            }
+            for key in unevaluated:
+                del new_values[key]
+            dict_.update(new_values)
+            to_evaluate = to_evaluate.difference(unevaluated)
 
             state.manager.dispatch.refresh(state, None, to_evaluate)
 
